@@ -48,7 +48,7 @@ CLAIMED = {
  "C19": ("FX1 FX2 FX3 FX4 FX6 CL1 CL3 CL4", "effect analysis: frozen effect tables + call-site inventory + interprocedural entry conditions + path-root provenance slicing over go/ssa/VTA",
          "every file-mutating primitive call of the module is either under an explicit action flag or rooted in <SpokFile.Dir>/<cache>; the --fmt write targets Options.Spokfile with Tree.String() after Parse and file.New succeeded; --init is guarded by an existence test of the same path and appends to .gitignore; listing branches reach no mutation; the logger has no file sink",
          "trusted: the effect tables of DESIGN.md appendix B (an unlisted external callee makes the check undecided). Not covered: effects of user commands / exec builtins (excluded by the property)"),
- "C20": ("ST1-ST9 GR6 RT4", "effect inventory of stdout writers with entry conditions + dominance of the stream silencing + buffer/stream pairing by origin tracing + sorted-before-write dominance over go/ssa",
+ "C20": ("ST1-ST10 GR6 RT4", "effect inventory of stdout writers with entry conditions + dominance of the stream silencing + buffer/stream pairing by origin tracing + sorted-before-write dominance over go/ssa",
          "the only direct stdout write prints Results.JSON() under Options.JSON; JSON() marshals the untouched SpokFile.Run result (no element store, re-ordering or append to a re-slice through any alias) with the expected tags; --quiet/--json install the Null stream before any reader; capture buffers pair with the right stream and result fields; listings collect, sort, then write; no printf-style call of the module has a run-time format; default dispatch runs 'default' or lists",
          "not covered: encoding/json rendering, tabwriter layout, docstring text"),
 }
